@@ -506,7 +506,14 @@ pub fn gen_cfg(r: &mut Rng, flavour: usize) -> String {
     format!("{gas},{iter},{fork},{val},{mem},{}", r.below(2))
 }
 
-pub const FIXED: [&str; 22] = [
+pub const FIXED: [&str; 28] = [
+    "67ffffffffffffffff600060003900",      // CODECOPY with size 2^64-1
+    "600019600060003900",                  // CODECOPY with size 2^256-1
+    "67ffffffffffffffe1600060003700",      // CALLDATACOPY with size 2^64-31
+    "600019600060003e00",                  // RETURNDATACOPY with size 2^256-1
+    "67ffffffffffffffff60006000333c00",    // EXTCODECOPY with size 2^64-1
+    "67fffffffffffffff0600160003900",       // CODECOPY, size 2^64-16, offset 1
+
     "60055600615b",                       // JUMP into the only immediate byte (0x5b) of a PUSH2 cut short by the end of the code
     "6001600757005b00615b",               // JUMPI into a truncated tail ... and a real JUMPDEST before it
     "600556007f5b5b",                     // PUSH32 with two immediate bytes, both 0x5b
